@@ -164,7 +164,8 @@ pub fn format_buf(args: Vec<Rc<Object>>) -> Result<Collector, String> {
             }
             continue;
         } else if curr == '}' {
-            if next == '}' {
+            // '}}' is an escape only outside a specifier; inside one, '}' ends it
+            if next == '}' && !in_spec {
                 write!(collector, "}}").map_err(|e| e.to_string())?;
                 idx_fmt += 2; // skip next brace as well
                 continue;
